@@ -32,6 +32,27 @@ lean/ColaVerif/Model/Heap.lean (`fresh x`, `alias x y`, `mayAlias x ys`, `write 
 function that defines the written object, followed by the write.  Variables that are never defined in
 the program are bound at entry (parameters / unknown objects: caller-owned).
 
+REASONS.  A library site whose target is NOT locally allocated inside its function (class param / unknown) is accepted only
+with a reason that the scanner ESTABLISHES BY ANALYSIS and emits into the table as data the Lean theorem checks
+(`Site.reason`, Lemmas/PersistSites.lean) — no prose allow-list:
+
+  privateHelper  the function is a helper that is not exported (`@export` / `__all__`) and is referenced in the package only as
+                 the callee of direct calls; for EVERY such call site the scanner emits the caller-side slice that defines the
+                 actual argument, followed by `call [arg] r [arg]` (interprocedural edge of the IR; arguments that are themselves
+                 parameters of a private helper are substituted through ITS callers, depth <= 4).  Lean: every caller program
+                 obeys the discipline.
+  primitive      the in-place backend primitive `np_fns.update_array` itself: every call `….update_array(t, …)` of the package is
+                 a site of the table; their slices (ending in `call`) are the caller programs.
+  ownedField     the target is (the contents of) an attribute `self.F`; for EVERY store to `F` in the class (any method) and every
+                 store `x.F = …` through another receiver in the library the scanner emits the slice defining the stored object,
+                 followed by `write`.  Lean: every such program obeys the discipline (the object was allocated by cola: the
+                 `**kwargs` dict of a constructor call is a new dict, `{}` a new dict): the write never reaches an object the
+                 caller passed in.
+  writeOnlyField the site re-binds an attribute `self.F = …` outside the constructor, and NO library code reads `.F` (Load of the
+                 attribute other than as receiver of a mutating method): the number of reads is emitted and must be 0.
+  classLevel     the target is reached through `__class__` (class-level registry `_dynamic`, modelled by Model/Registry.lean).
+  (none)         no reason established: the row is rejected unless Lemmas/PersistSites.lean lists it under a NAMED CLAUSE.
+
 Output (REGENERATED on every run of ./check C18):
     lean/ColaVerif/Gen/InplaceSites.lean     generated Lean data (never hand-edited)
     work/c18/sites.json                      the same rows for the harness / evidence
@@ -64,6 +85,9 @@ VIEW_FNS = {"reshape", "moveaxis", "permute", "transpose", "expand", "squeeze", 
             "Parameter", "to", "cpu", "detach", "get", "setdefault", "items", "values", "keys", "__getitem__", "next", "iter"}
 MUT_METHODS = {"pop", "popitem", "update", "clear", "setdefault", "sort", "reverse", "fill", "append", "extend", "insert",
                "remove", "add", "discard", "put", "itemset", "resize"}
+# calls that leave the package and come back: optree.tree_unflatten(treedef, leaves) calls the classmethod `tree_unflatten` of the
+# registered pytree node classes (AutoRegisteringPyTree registers every LinearOperator class)
+EXTERNAL_DISPATCH = {"tree_unflatten": "tree_unflatten"}
 LOOP_FNS = {"while_loop", "while_loop_no_jit", "for_loop", "while_fn", "while_loop_winfo", "new_while"}
 MAX_DEPTH = 4
 
@@ -101,6 +125,8 @@ class Fn:
             if x.annotation is not None and "LinearOperator" in ast.unparse(x.annotation):
                 self.op_params.add(x.arg)
         self.children = {}
+        self.decorators = [ast.unparse(d) for d in node.decorator_list]
+        self.kwarg = a.kwarg.arg if a.kwarg else None
         self.final_defs = None   # name -> [prov] flow-insensitive union (for closures)
         self.qual = (parent.qual + "." if parent else (cls + "." if cls else "")) + self.name
 
@@ -164,6 +190,14 @@ class Analyzer:
             for n, f in m.fns.items():
                 self.global_fns.setdefault(n, f)
         self.sites = []
+        self.field_defs = {}     # (module, class, attr) -> [(function qual, line, prov)] stores `self.attr = e` inside the class
+        self.foreign_defs = {}   # attr -> [(module, function qual, line, prov)] stores `x.attr = e` through another receiver
+
+    @staticmethod
+    def root_cls(fn):
+        while fn.parent is not None:
+            fn = fn.parent
+        return fn.cls
 
     # ---------------------------------------------------------------- expression provenance
     def prov(self, e, env, fn, depth=0, stack=()):
@@ -240,6 +274,13 @@ class Analyzer:
             lp = self.loop_call(e, env, fn, depth, stack)
             if lp is not None:
                 return lp
+        if name in EXTERNAL_DISPATCH and isinstance(f, ast.Attribute) and depth < MAX_DEPTH:
+            tgt = EXTERNAL_DISPATCH[name]
+            cands = [g for m in self.modules.values() for g in m.all_top if g.cls is not None and g.name == tgt
+                     and scope_of(m.rel) == "library"]
+            outs = [self.ret_prov_bound(g, {}, depth, stack) for g in cands if g.qual not in stack]
+            if outs:
+                return join(outs)
         if name in VIEW_FNS:
             if isinstance(f, ast.Attribute) and not self.is_backend(f.value):
                 return view(self.prov(f.value, env, fn, depth, stack))      # receiver.reshape(...)
@@ -378,6 +419,8 @@ class Analyzer:
         lc = self.loop_state(fn, p, depth, stack)
         if lc is not None:
             return lc
+        if p == fn.kwarg:
+            return fresh("**kwargs dict")     # Python builds a new dict for the var-keyword parameter at every call
         if fn.parent is not None and p not in ("self", "cls") and fn.qual + "#callers" not in stack:
             alts = self.caller_args(fn, p, depth, stack)     # a nested function: all its call sites are in the parent
             if alts:
@@ -485,7 +528,22 @@ class Analyzer:
         elif isinstance(target, ast.Subscript):
             self.site("subscript_store", target.value, target, env, ctx)
         elif isinstance(target, ast.Attribute):
+            self.record_field_store(target, p, ctx)
             self.attr_store(target, env, ctx)
+
+    def record_field_store(self, target, p, ctx):
+        if not ctx["emit"]:
+            return
+        fn = ctx["fn"]
+        base = target.value
+        root = fn
+        while root.parent is not None:
+            root = root.parent
+        is_self = isinstance(base, ast.Name) and root.cls is not None and root.params and base.id == root.params[0]
+        if is_self:
+            self.field_defs.setdefault((fn.module, root.cls, target.attr), []).append((fn.qual, target.lineno, p))
+        else:
+            self.foreign_defs.setdefault(target.attr, []).append((fn.module, fn.qual, target.lineno, p))
 
     def attr_store(self, target, env, ctx):
         fn = ctx["fn"]
@@ -505,7 +563,7 @@ class Analyzer:
         if kind == "attr_store" and isinstance(node, ast.Call):   # setattr(obj, k, v)
             label = ast.unparse(target_expr) + ".<setattr>"
         self.sites.append(dict(file=fn.module, line=node.lineno, func=fn.qual, kind=kind,
-                               target=label, text=ast.unparse(node)[:100], prov=p))
+                               target=label, text=ast.unparse(node)[:100], prov=p, fn=fn, target_expr=target_expr, node=node))
 
     def scan_expr(self, e, env, ctx):
         """sites inside an expression: update_array(...) calls, mutating method calls, setattr"""
@@ -631,6 +689,124 @@ class Analyzer:
         for e in ast.iter_child_nodes(s):
             if isinstance(e, ast.expr):
                 self.scan_expr(e, env, ctx)
+
+    # ---------------------------------------------------------------- reasons (interprocedural / field analysis)
+    def parents(self, m):
+        if getattr(m, "_parents", None) is None:
+            m._parents = {}
+            for n in ast.walk(m.tree):
+                for c in ast.iter_child_nodes(n):
+                    m._parents[c] = n
+        return m._parents
+
+    def is_private(self, fn):
+        """-> (bool, why).  A top-level function that is not exported and that the package references only as the callee of
+        direct calls inside its own module: every call site is then known to `caller_args`."""
+        if fn.parent is not None or fn.cls is not None:
+            return False, "not a top-level function"
+        if any(d.split("(")[0].split(".")[-1] == "export" for d in fn.decorators):
+            return False, "decorated @export"
+        for m in self.modules.values():
+            par = self.parents(m)
+            for n in ast.walk(m.tree):
+                if isinstance(n, ast.Assign) and any(isinstance(t, ast.Name) and t.id == "__all__" for t in n.targets) \
+                        and m.rel == fn.module and fn.name in ast.unparse(n.value):
+                    return False, "listed in __all__"
+                if isinstance(n, ast.ImportFrom) and any(a.name == fn.name for a in n.names):
+                    return False, f"imported by name in {m.rel}"
+                if isinstance(n, ast.Attribute) and n.attr == fn.name and not (m.rel == fn.module and False):
+                    return False, f"referenced as attribute in {m.rel}:{n.lineno}"
+                if isinstance(n, ast.Name) and n.id == fn.name and isinstance(n.ctx, ast.Load):
+                    if m.rel != fn.module:
+                        if n.id in m.fns or any(n.id in g.children for g in self.all_fns(m)):
+                            continue      # another function of the same name in another module
+                        return False, f"referenced in {m.rel}:{n.lineno}"
+                    pn = par.get(n)
+                    if not (isinstance(pn, ast.Call) and pn.func is n):
+                        return False, f"used as a value in {m.rel}:{n.lineno}"
+        return True, "not exported; referenced only as the callee of direct calls in its own module"
+
+    def param_leaves(self, p, acc=None):
+        acc = [] if acc is None else acc
+        if p[0] == "param":
+            if p[1] not in acc:
+                acc.append(p[1])
+        elif p[0] in ("view", "loop"):
+            self.param_leaves(p[1], acc)
+        elif p[0] in ("join", "tuple", "matmul"):
+            for x in p[1]:
+                self.param_leaves(x, acc)
+        return acc
+
+    def resolve_params(self, p, g, depth=0):
+        """substitute the parameters of a PRIVATE helper g occurring in p by what g's callers pass (recursively)"""
+        def subst(q):
+            if q[0] == "param" and q[1] in g.params and q[1] not in ("self", "cls") and depth < MAX_DEPTH and self.is_private(g)[0]:
+                alts = []
+                for h, arg_p in self.call_sites(g, q[1]):
+                    alts.append(self.resolve_params(arg_p, h, depth + 1))
+                return join(alts) if alts else q
+            if q[0] in ("view", "loop"):
+                return (q[0], subst(q[1]))
+            if q[0] in ("join", "tuple", "matmul"):
+                xs = [subst(x) for x in q[1]]
+                return join(xs) if q[0] == "join" else (q[0], xs)
+            return q
+        return subst(p)
+
+    @staticmethod
+    def own_nodes(fn):
+        """AST nodes of the function body, not descending into nested function definitions"""
+        todo = [n for n in fn.node.body if not isinstance(n, (ast.FunctionDef, ast.AsyncFunctionDef))]
+        while todo:
+            n = todo.pop()
+            yield n
+            for c in ast.iter_child_nodes(n):
+                if not isinstance(c, (ast.FunctionDef, ast.AsyncFunctionDef)):
+                    todo.append(c)
+
+    def call_sites(self, fn, pname):
+        """[(calling function, provenance of the actual argument in the caller)] for every direct call of fn in its module
+        (each call attributed to the innermost function that contains it)"""
+        out = []
+        idx = fn.pos_params.index(pname) if pname in fn.pos_params else None
+        m = self.modules[fn.module]
+        for g in self.all_fns(m):
+            for node in self.own_nodes(g):
+                if isinstance(node, ast.Call) and isinstance(node.func, ast.Name) and node.func.id == fn.name \
+                        and self.resolve_fn(fn.name, node.func, g) is fn:
+                    arg = None
+                    if idx is not None and idx < len(node.args) and not any(isinstance(a, ast.Starred) for a in node.args[:idx + 1]):
+                        arg = node.args[idx]
+                    for k in node.keywords:
+                        if k.arg == pname:
+                            arg = k.value
+                    if arg is None:
+                        out.append((g, ("unknown", "argument not found")))
+                        continue
+                    st = (fn.qual + "#callers",)
+                    genv = {k: list(v) for k, v in self.closure_defs(g, 1, st).items()}
+                    for q in g.params:
+                        genv.setdefault(q, [self.param_prov(g, q, 1, st)])
+                    out.append((g, self.prov(arg, genv, g, 1, st)))
+        return out
+
+    def attr_reads(self, attr):
+        """library reads of `.attr` (Load context, not the receiver of a mutating method call and not a store target)"""
+        n_reads, where = 0, []
+        for m in self.modules.values():
+            if scope_of(m.rel) != "library":
+                continue
+            par = self.parents(m)
+            for n in ast.walk(m.tree):
+                if isinstance(n, ast.Attribute) and n.attr == attr and isinstance(n.ctx, ast.Load):
+                    pn = par.get(n)
+                    if isinstance(pn, ast.Attribute) and pn.value is n and pn.attr in MUT_METHODS and isinstance(par.get(pn), ast.Call) \
+                            and par[pn].func is pn:
+                        continue
+                    n_reads += 1
+                    where.append(f"{m.rel}:{n.lineno}")
+        return n_reads, where
 
     @staticmethod
     def merge(env, envs):
@@ -791,7 +967,115 @@ def lean_instr(i):
         return f".mayAlias {i[1]} [{', '.join(map(str, i[2]))}]"
     if i[0] == "write":
         return f".write {i[1]}"
+    if i[0] == "call":
+        return f".call [{', '.join(map(str, i[1]))}] {i[2]} [{', '.join(map(str, i[3]))}]"
     raise ValueError(i)
+
+
+def lean_prog(prog):
+    return "[" + ", ".join(lean_instr(x) for x in prog) + "]"
+
+
+def prog_of(p, last):
+    """IR program of a provenance tree followed by `write v` or by the interprocedural edge `call [v] r [v]`"""
+    ir = IR()
+    v = ir.comp(p)
+    if last == "write":
+        ir.instrs.append(("write", v))
+    else:
+        r = ir.new()
+        ir.instrs.append(("call", [v], r, [v]))
+    return ir.instrs
+
+
+def py_writes_only_fresh(prog):
+    """mirror of Heap.writesOnlyFresh (diagnostics / statistics only; Lean decides)"""
+    L = set()
+    for i in prog:
+        if i[0] == "fresh":
+            L.add(i[1])
+        elif i[0] == "alias":
+            L.add(i[1]) if i[2] in L else L.discard(i[1])
+        elif i[0] == "mayAlias":
+            L.add(i[1]) if all(y in L for y in i[2]) else L.discard(i[1])
+        elif i[0] == "write":
+            if i[1] not in L:
+                return False
+        elif i[0] == "call":
+            if not all(w in L for w in i[1]):
+                return False
+            L.add(i[2]) if all(y in L for y in i[3]) else L.discard(i[2])
+    return True
+
+
+def establish_reason(an, s, all_sites, base):
+    """-> dict(kind, progs, detail, reads) for a library site whose own slice does not obey the discipline"""
+    fn, texpr = s["fn"], s["target_expr"]
+    text = ast.unparse(texpr)
+    # class-level registry
+    if "__class__" in text:
+        return {"kind": "classLevel", "progs": [], "reads": 0, "detail": "target reached through __class__ (class-level table)"}
+    # the backend primitive: every call of it in the package is a site of the table
+    if s["file"].replace(os.sep, "/") == "backends/np_fns.py" and fn.name == "update_array" and fn.parent is None:
+        progs, where = [], []
+        for t in all_sites:
+            if t["kind"] != "update_array" or scope_of(t["file"], base) != "library":
+                continue
+            p = t["prov"]
+            params = [q for q in an.param_leaves(p) if q not in ("self", "cls")]
+            if params and t["fn"].parent is None and an.is_private(t["fn"])[0]:
+                p = an.resolve_params(p, t["fn"])
+            progs.append(prog_of(p, "call"))
+            where.append(f"{t['file']}:{t['line']} {t['func']}")
+        return {"kind": "primitive", "progs": progs, "reads": 0,
+                "detail": f"{len(progs)} calls of update_array in library modules: " + "; ".join(where)[:600]}
+    # attribute of self
+    root = fn
+    while root.parent is not None:
+        root = root.parent
+    e = texpr
+    chain_attrs = []
+    while isinstance(e, (ast.Attribute, ast.Subscript)):
+        if isinstance(e, ast.Attribute):
+            chain_attrs.append(e.attr)
+        e = e.value
+    on_self = isinstance(e, ast.Name) and root.cls is not None and root.params and e.id == root.params[0]
+    if on_self and s["kind"] == "attr_store" and isinstance(s["node"], ast.Attribute) and s["node"].value is e:
+        attr = s["node"].attr
+        n, where = an.attr_reads(attr)
+        return {"kind": "writeOnlyField", "progs": [], "reads": n,
+                "detail": f"attribute `{attr}` re-bound outside the constructor; library reads of `.{attr}`: {n}" + (" at " + ", ".join(where[:6]) if where else "")}
+    if on_self and chain_attrs:
+        attr = chain_attrs[-1]      # the attribute of self that holds the mutated object
+        defs = list(an.field_defs.get((fn.module, root.cls, attr), []))
+        foreign = [(q, ln, p) for (mod, q, ln, p) in an.foreign_defs.get(attr, []) if scope_of(mod, base) == "library"]
+        progs = [prog_of(p, "write") for _q, _ln, p in defs + foreign]
+        return {"kind": "ownedField", "progs": progs, "reads": 0,
+                "detail": f"stores to `.{attr}`: " + "; ".join(f"{q}:{ln}" for q, ln, _p in defs + foreign)[:600]}
+    # parameter of a private helper
+    params = [q for q in an.param_leaves(s["prov"]) if q not in ("self", "cls")]
+    if params and fn.parent is None and all(q in fn.params for q in params):
+        ok, why = an.is_private(fn)
+        if ok:
+            progs, where = [], []
+            for q in params:
+                for g, argp in an.call_sites(fn, q):
+                    progs.append(prog_of(an.resolve_params(argp, g), "call"))
+                    where.append(g.qual)
+            return {"kind": "privateHelper", "progs": progs, "reads": 0, "detail": why + "; call sites in: " + ", ".join(where)}
+        return {"kind": "none", "progs": [], "reads": 0, "detail": "helper is not private: " + why}
+    return {"kind": "none", "progs": [], "reads": 0, "detail": "no reason established"}
+
+
+def lean_reason(r):
+    k = r["kind"]
+    if k in ("privateHelper", "primitive", "ownedField"):
+        return f".{k} [" + ", ".join(lean_prog(pr) for pr in r["progs"]) + "]"
+    if k == "writeOnlyField":
+        return f".writeOnlyField {r['reads']}"
+    if k == "classLevel":
+        return ".classLevel"
+    return ".none"
 
 
 CLS_LEAN = {"fresh": "fresh", "view-of-fresh": "viewOfFresh", "loop-carried": "loopCarried", "matmul-result": "matmulResult",
@@ -815,12 +1099,14 @@ def run(out_lean=OUT_LEAN, out_json=OUT_JSON, quiet=False):
         if key in seen:
             continue
         seen.add(key)
-        ir = IR()
-        v = ir.comp(s["prov"])
-        ir.instrs.append(("write", v))
+        prog = prog_of(s["prov"], "write")
+        scope = scope_of(s["file"], base)
+        reason = {"kind": "none", "progs": [], "reads": 0, "detail": ""}
+        if scope == "library" and not py_writes_only_fresh(prog):
+            reason = establish_reason(an, s, an.sites, base)
         rows.append(dict(file=s["file"].replace(os.sep, "/"), line=s["line"], func=s["func"], kind=s["kind"], target=s["target"],
-                         text=s["text"], cls=flat(s["prov"]), chain=chain(s["prov"]), prog=ir.instrs,
-                         scope=scope_of(s["file"], base)))
+                         text=s["text"], cls=flat(s["prov"]), chain=chain(s["prov"]), prog=prog, scope=scope,
+                         reason=reason["kind"], reason_progs=reason["progs"], reason_reads=reason["reads"], reason_detail=reason["detail"]))
     rows.sort(key=lambda r: (r["file"], r["line"], r["kind"], r["target"]))
     os.makedirs(os.path.dirname(out_json), exist_ok=True)
     with open(out_json, "w") as f:
@@ -831,10 +1117,12 @@ def run(out_lean=OUT_LEAN, out_json=OUT_JSON, quiet=False):
              "import ColaVerif.Model.Heap", "", "namespace ColaVerif.Gen.InplaceSites", "open ColaVerif.Heap", "",
              "def sites : List Site := ["]
     for i, r in enumerate(rows):
-        prog = "[" + ", ".join(lean_instr(x) for x in r["prog"]) + "]"
+        prog = lean_prog(r["prog"])
+        rs = lean_reason({"kind": r["reason"], "progs": r["reason_progs"], "reads": r["reason_reads"]})
         lines.append(f"  {{ file := {lean_str(r['file'])}, func := {lean_str(r['func'])}, kind := .{KIND_LEAN[r['kind']]}, "
                      f"target := {lean_str(r['target'])}, line := {r['line']}, scope := .{r['scope']}, cls := .{CLS_LEAN[r['cls']]},\n"
-                     f"    chain := {lean_str(r['chain'][:300])},\n    prog := {prog} }}" + ("," if i + 1 < len(rows) else ""))
+                     f"    chain := {lean_str(r['chain'][:300])},\n    prog := {prog},\n"
+                     f"    reason := {rs}, reasonText := {lean_str(r['reason_detail'][:400])} }}" + ("," if i + 1 < len(rows) else ""))
     lines += ["]", "", "end ColaVerif.Gen.InplaceSites", ""]
     os.makedirs(os.path.dirname(out_lean), exist_ok=True)
     new = "\n".join(lines)
